@@ -189,6 +189,67 @@ pub fn verif_write_map_items<W: Write>(w: &mut DefaultProtocolWriter<W>, val: &H
     unimplemented!()
 }
 
+/// the error of `str::parse`; only its text is used (in a log line)
+#[verifier::external_body]
+pub struct VerifParseError {
+    _p: (),
+}
+
+/// R19: `rv.parse::<i64>()`: std's parser inverts std's `to_string` (assumed)
+#[verifier::external_body]
+pub fn verif_parse_i64(s: &String) -> (r: Result<i64, VerifParseError>)
+    ensures
+        forall|v: i64| s@ == i64_text(v) ==> r == Ok::<i64, VerifParseError>(v),
+{
+    unimplemented!()
+}
+
+/// R19: `rv.parse::<f64>()`
+#[verifier::external_body]
+pub fn verif_parse_f64(s: &String) -> (r: Result<f64, VerifParseError>)
+    ensures
+        forall|v: f64| s@ == f64_text(v) ==> r == Ok::<f64, VerifParseError>(v),
+{
+    unimplemented!()
+}
+
+impl SourceCode {
+    /// `SourceCode { source: source.to_string(), source_id }` (src/datamodel/mod.rs)
+    #[verifier::external_body]
+    pub fn new(source: &str, source_id: SourceId) -> (r: SourceCode)
+        ensures
+            r.source@ == source@,
+            r.source_id == source_id,
+    {
+        unimplemented!()
+    }
+}
+
+/// R19: the element loops of the container variants in read_data_value_payload (`val.push(self.read_data_arc())`,
+/// `val.insert(k, self.read_data_arc())`): NOT under contract; only the sticky error flag is assumed
+#[verifier::external_body]
+pub fn verif_read_array_items<R: Read>(r: &mut DefaultProtocolReader<R>, val: &mut Vec<DataArc>, len: usize)
+    ensures
+        !old(r).ok ==> !final(r).ok && final(r).reader == old(r).reader,
+        final(r).reader.eof_only() == old(r).reader.eof_only(),
+{
+    unimplemented!()
+}
+
+#[verifier::external_body]
+pub fn verif_read_map_items<R: Read>(r: &mut DefaultProtocolReader<R>, val: &mut HashMap<String, DataArc>, len: usize)
+    ensures
+        !old(r).ok ==> !final(r).ok && final(r).reader == old(r).reader,
+        final(r).reader.eof_only() == old(r).reader.eof_only(),
+{
+    unimplemented!()
+}
+
+#[verifier::external_body]
+pub fn verif_map_with_capacity(len: usize) -> (r: HashMap<String, DataArc>) {
+    HashMap::with_capacity(len)
+}
+
 
 broadcast use {trusted_axioms::axiom_str_len_fits};
 
@@ -1043,6 +1104,79 @@ length -= 1;
         }
     }
 
+fn read_data_value_payload(&mut self, what: u8) -> (r: Data) 
+    ensures
+        !old(self).pok() ==> !final(self).pok() && final(self).prest() == old(self).prest(),
+        final(self).preliable() == old(self).preliable(),
+        (what == 0 || what == 9) ==> final(self).pok() == old(self).pok() && final(self).prest() == old(self).prest() && (what == 0 ==> r is Null) && (what == 9 ==> r is None),
+        what > 9 ==> !final(self).pok(),
+        (what == 3 || what == 7) && old(self).pok() ==> rd_post(str_token(old(self).prest()).is_some(), unknown_head(old(self).prest()), old(self).preliable(), final(self).pok(), old(self).prest(), str_token(old(self).prest()).unwrap().1, final(self).prest(), (what == 3 ==> r is String && encode_utf8(r->String_0@) == str_token(old(self).prest()).unwrap().0) && (what == 7 ==> r is Error && encode_utf8(r->Error_0@) == str_token(old(self).prest()).unwrap().0)),
+        (what == 1 || what == 2) && old(self).pok() && final(self).pok() && !unknown_head(old(self).prest()) ==> str_token(old(self).prest()).is_some() && final(self).prest() == skip(old(self).prest(), str_token(old(self).prest()).unwrap().1) && (forall|v: i64| what == 1 && str_token(old(self).prest()).unwrap().0 == encode_utf8(i64_text(v)) ==> r == Data::Integer(v)) && (forall|v: f64| what == 2 && str_token(old(self).prest()).unwrap().0 == encode_utf8(f64_text(v)) ==> r == Data::Double(v)),
+        what == 4 && old(self).pok() ==> rd_post(old(self).prest().len() >= 1 && (old(self).prest()[0] == 0x1F || old(self).prest()[0] == 0x10), false, old(self).preliable(), final(self).pok(), old(self).prest(), 1, final(self).prest(), r is Boolean && r->Boolean_0 == (old(self).prest()[0] == 0x1F)),
+        what == 8 && old(self).pok() && final(self).pok() && !unknown_head(old(self).prest()) ==> str_token(old(self).prest()).is_some() && ({ let ra = skip(old(self).prest(), str_token(old(self).prest()).unwrap().1); !unknown_head(ra) ==> num_token(ra).is_some() && r is Source && encode_utf8(r->Source_0.source@) == str_token(old(self).prest()).unwrap().0 && r->Source_0.source_id == num_token(ra).unwrap().0 as usize && final(self).prest() == skip(ra, num_token(ra).unwrap().1) }),
+        what == 8 && old(self).pok() && old(self).preliable() && str_token(old(self).prest()).is_some() && num_token(skip(old(self).prest(), str_token(old(self).prest()).unwrap().1)).is_some() ==> final(self).pok(),
+{
+        match what {
+            0 => Data::Null(),
+            1 => {
+                let rv = self.read_string();
+proof {  assert forall|v: i64| encode_utf8(rv@) == encode_utf8(i64_text(v)) implies rv@ == i64_text(v) by { lemma_utf8_injective(rv@, i64_text(v)); } }
+
+                match verif_parse_i64(&rv) {
+                    Ok(val) => Data::Integer(val),
+                    Err(err) => {
+                        self.error(verif_format().as_str());
+                        self.ok = false;
+                        Data::Null()
+                    }
+                }
+            }
+            2 => {
+                let rv = self.read_string();
+proof {  assert forall|v: f64| encode_utf8(rv@) == encode_utf8(f64_text(v)) implies rv@ == f64_text(v) by { lemma_utf8_injective(rv@, f64_text(v)); } }
+
+                match verif_parse_f64(&rv) {
+                    Ok(val) => Data::Double(val),
+                    Err(err) => {
+                        self.error(verif_format().as_str());
+                        self.ok = false;
+                        Data::Null()
+                    }
+                }
+            }
+            3 => Data::String(self.read_string()),
+            4 => Data::Boolean(self.read_boolean()),
+            5 => {
+                let len = self.read_usize();
+                let mut val = Vec::with_capacity(len);
+                verif_read_array_items(self, &mut val, len);
+                Data::Array(val)
+            }
+            6 => {
+                let len = self.read_usize();
+                let mut val = verif_map_with_capacity(len);
+                verif_read_map_items(self, &mut val, len);
+                Data::Map(val)
+            }
+            7 => {
+                let k = self.read_string();
+                Data::Error(k)
+            }
+            8 => {
+                let k = self.read_string();
+                let id = self.read_usize();
+                Data::Source(SourceCode::new(k.as_str(), id))
+            }
+            9 => Data::None(),
+
+            _ => {
+                self.error(verif_format().as_str());
+                self.ok = false;
+                Data::Null()
+            }
+        }
+    }
+
 fn read_type_and_size(&mut self) 
     ensures
         !old(self).ok ==> *final(self) == *old(self),
@@ -1433,6 +1567,36 @@ pub proof fn format_covers_every_string(b: Seq<u8>)
 {
 }
 
+
+
+// ===== claims: claims_data.rs =====
+// serves: C05
+/// Round trip of a script/expression value (Data::Source), the value kind a persisted model consists of: the payload
+/// write_data emits decodes, token by token, to the same text and the same source id, with nothing left over.
+/// Together with write_data.bytes and read_data_value_payload.source_payload / source_payload_is_accepted this is
+/// `read(write(Source(text, id))) == Source(text, id)` for every text below 4096 bytes and every id.
+pub proof fn lemma_rt_data_source(text: Seq<char>, id: usize, tail: Seq<u8>)
+    requires
+        str_encodable(encode_utf8(text)),
+    ensures
+        ({
+            let b = encode_utf8(text);
+            let rest = enc_str(b) + enc_uint(id as u64) + tail;
+            let ra = skip(rest, enc_str(b).len() as int);
+            &&& !unknown_head(rest)
+            &&& str_token(rest) == Some((b, enc_str(b).len() as int))
+            &&& !unknown_head(ra)
+            &&& num_token(ra).is_some()
+            &&& num_token(ra).unwrap().0 == id as u64
+            &&& skip(ra, num_token(ra).unwrap().1) == tail
+        }),
+{
+    let b = encode_utf8(text);
+    vstd::utf8::encode_utf8_valid_utf8(text);
+    assert(enc_str(b) + enc_uint(id as u64) + tail =~= enc_str(b) + (enc_uint(id as u64) + tail));
+    lemma_rt_str(b, enc_uint(id as u64) + tail);
+    lemma_rt_uint(id as u64, tail);
+}
 
 
 } // verus!
